@@ -17,6 +17,12 @@ def main():
     rnames = [randforms.name_of(chk.seed, i) for i in range(12 if a.tier == "quick" else 160)] if not a.only else []
     run_cases(chk, "vlib.kernelprops", "bounds", rnames, {"tier": a.tier}, a.jobs)
     chk.extra["random_forms"] = len(rnames)
+    # expression kernels: every local facet and permutation code
+    from vlib import exprcheck
+    enames = exprcheck.select(quick=(a.tier == "quick")) + [f"randexpr:{chk.seed}:{i}" for i in range(8 if a.tier == "quick" else 120)]
+    if not a.only:
+        run_cases(chk, "vlib.exprcheck", "expr_bounds", enames, {"tier": a.tier}, a.jobs)
+        chk.extra["expression_kernels"] = len(enames)
     chk.encoded("every array access site of every generated kernel (loops not unrolled; loop indices, entity index and permutation code are z3 Ints)")
     chk.bounds = {"programs": len(names), "loop variables": "symbolic in [begin,end)", "entity index": "all valid local entities of the kernel's facet type",
                   "permutation code": "0..#perms-1 of the facet type", "extents": "from the form: sum element dims (x2 for dS), constant sizes, 3 x nodes (x2), prod argument dims; 0/1/2 entity and 0/2 permutation entries"}
